@@ -195,6 +195,8 @@ def _frac(t, memo):
         return memo[k]
     if z3.is_rational_value(t) or z3.is_const(t):
         r = (t, None)
+    elif t.decl().kind() not in (z3.Z3_OP_ADD, z3.Z3_OP_SUB, z3.Z3_OP_MUL, z3.Z3_OP_DIV, z3.Z3_OP_UMINUS):
+        r = (t, None)
     else:
         op = t.decl().kind()
         ch = [_frac(x, memo) for x in t.children()]
@@ -230,7 +232,8 @@ def _frac(t, memo):
         elif op == z3.Z3_OP_UMINUS:
             r = (-ch[0][0], ch[0][1])
         else:
-            raise ValueError("operator %s" % t.decl())
+            # any other term (conditional, uninterpreted application): an atom of the polynomial ring
+            r = (t, None)
     memo[k] = r
     return r
 
